@@ -1008,10 +1008,13 @@ func (m *Manager) handleInterfaceEvent(ev events.Event) {
 		}
 	}
 	downCount := m.ifDownCount[srgName]
-	m.mu.Unlock()
-
+	// Apply the priority while m.mu is still held: interface events are
+	// dispatched on separate goroutines, and two of them applying their
+	// deltas in the opposite order of their count updates would leave a
+	// priority computed from a stale count.
 	delta := -int32(srgCfg.TrackPriorityDecrement) * int32(downCount)
 	sm.AdjustPriority(delta)
+	m.mu.Unlock()
 
 	if !ifEv.LinkUp || ifEv.Deleted {
 		m.logger.Warn("Interface down, SRG priority decremented",
